@@ -202,8 +202,9 @@ func (s *SessionKey) Decrypt(ciphertext []byte) ([]byte, error) {
 	s.mu.Lock()
 	if nonceValue < s.recvNonce {
 		// A concurrent Decrypt accepted this or a later message meanwhile.
+		expected := s.recvNonce
 		s.mu.Unlock()
-		return nil, fmt.Errorf("nonce too old: received %d, expected >= %d", nonceValue, s.recvNonce)
+		return nil, fmt.Errorf("nonce too old: received %d, expected >= %d", nonceValue, expected)
 	}
 	s.recvNonce = nonceValue + 1
 	s.mu.Unlock()
